@@ -103,6 +103,7 @@ def run(ctx):
     r2_alignment(ctx)
     r3_none_normalisation(ctx)
     r4_cardinality(ctx)
+    r5_types_and_state(ctx)
 
 
 def r1_key_domain(ctx):
@@ -245,7 +246,27 @@ def r3_none_normalisation(ctx):
     ctx.ob("C20.R3", ENC, "InteractionsEncoder.encode", tru[0] if tru else fn, "no namespace value is defaulted by truthiness (`x or []`)", not tru, stmt="no truthiness default")
 
 
+def r5_types_and_state(ctx):
+    from . import typetable
+    ctx.rule("C20.R5", "sparse and dense namespaces are recognised through the Sparse/Dense ABCs (every Mapping is sparse; lists, tuples and row views are "
+                       "dense) and encode() is a function of its arguments only: encode/_pows/_cross store nothing on the encoder and keep no memo")
+    n = typetable.dispatch_uses_abcs(ctx, "C20.R5", ENC, "InteractionsEncoder.encode")
+    ctx.floor("C20.R5", "dense/sparse type tests in encode", n, 2)
+    typetable.registrations(ctx, "C20.R5")
+    from ..util import self_state_stores
+    c = ctx.model.cls(ENC, "InteractionsEncoder")
+    for name, fn in sorted(c.methods.items()):
+        if name == "__init__":
+            continue
+        ctx.touch(ENC, f"InteractionsEncoder.{name}")
+        stores = self_state_stores(fn, c.methods.values())
+        decs = [unparse(d) for d in fn.decorator_list]
+        ctx.ob("C20.R5", ENC, f"InteractionsEncoder.{name}", fn, "the method keeps no state between calls (no store on self other than write-only counters, no memo decorator)",
+               not stores and not any("cache" in d for d in decs), detail={"stores": stores, "decorators": decs}, stmt=f"InteractionsEncoder.{name} stateless")
+
+
 def r4_cardinality(ctx):
+
     """`each unordered combination of features once`: the number of degree-k monomials over n features is C(n+k-1, k).
     _pows is interpreted in the cardinality domain (feature values abstracted to opaque elements, list lengths / slice offsets /
     the integer offset table tracked exactly, the degree loop unrolled) for every n <= 8, degree <= 6, numeric and string features."""
@@ -291,7 +312,15 @@ def r4_cardinality(ctx):
     ctx.ob("C20.R4", ENC, "InteractionsEncoder._cross", comps[0] if comps else cr, "namespaces are crossed as a full outer product (two unfiltered generators per step)", ok, stmt="_cross outer product")
 
 
+def _memo_pows(tree):
+    from ..mutate import find_def
+    fn = find_def(tree, "InteractionsEncoder._pows")
+    fn.body.insert(0, ast.parse("self._memo = (id(values), degree)").body[0])
+
+
 CONTROLS = [
+    ("_pows remembers its last argument", ENC, _memo_pows, "C20.R5"),
+    ("Sparse registers dict only", "coba/primitives.py", lambda tree: __import__("cobastatic.rules.c16", fromlist=["_reg_dict"])._reg_dict(tree), "C20.R5"),
     ("offset table of the published version", ENC, M.replace_expr("InteractionsEncoder._pows", "list(accumulate([1] + [n_prev - s + 1 for s in starts[:-1]]))", "list(accumulate(starts[:1] + starts[-1:] + starts[1:-1]))"), "C20.R4"),
     ("falsy scalar treated as missing", ENC, M.replace_expr("InteractionsEncoder.encode", "v if v is not None else []", "v or []"), "C20.R3"),
     ("absent namespace not completed", ENC, M.replace_stmt("InteractionsEncoder.encode", lambda st: isinstance(st, ast.For) and "setdefault" in ast.unparse(st), "pass"), "C20.R1"),
